@@ -80,7 +80,7 @@ def online_variance(ctx, n, size, dim):
 
 
 @harness('C18', 'derived_trace',
-         quick=[dict(n=3, size=2, ties=False, _shards=4), dict(n=2, size=2, ties=True), dict(n=2, size=3, ties=False)],
+         quick=[dict(n=3, size=2, ties=False, _shards=4), dict(n=2, size=2, ties=True), dict(n=3, size=2, ties=True, _shards=8), dict(n=2, size=3, ties=False)],
          thorough=[dict(n=3, size=3, ties=False, _shards=8), dict(n=3, size=2, ties=True, _shards=8)],
          functions=FUNCS + ['taurex.optimizer.optimizer:Optimizer.compute_derived_trace', 'taurex.util.util:quantile_corner'],
          stubs=['mpi4py -> sequential serialising communicator double', 'nestle result -> symbolic samples/weights',
